@@ -38,6 +38,8 @@ type static struct {
 	final           [2]string
 	nEdits          int
 	longLines       int
+	noisy           bool
+	noiseSeq        int
 }
 
 type fileVersion struct {
@@ -330,6 +332,12 @@ func (s *static) Plan(w *World) {
 	}
 	w.Sim.SetPoolReuse(int(t.Draw(3)))
 	w.FaultsOn = t.Draw(2) == 1
+	if t.Draw(4) == 0 {
+		// a small kernel event queue (fs.inotify.max_queued_events is a sysctl; 16384 by default) and other files
+		// coming and going in the lease file's directory: the queue overflows while the plugin is busy
+		s.noisy = true
+		w.Sim.InotifyQueueMax = 4 + int(t.Draw(28))
+	}
 }
 
 func sameMap(a, b map[string]string) bool {
@@ -384,6 +392,18 @@ func (s *static) OnStarted(w *World, inc int, err string) {
 		}
 		if w.FaultsOn && t.Draw(4) == 0 {
 			w.Sim.After(int64(t.Draw(10000))*1e6, func() { w.Sim.ArmReadFileErr(1 + int(t.Draw(2))) })
+		}
+		if s.noisy {
+			for i, k := 0, t.Range(1, 4); i < k; i++ {
+				n := t.Range(3, 60)
+				w.Sim.After(int64(t.Draw(uint32(at/1e6+1)))*1e6, func() {
+					w.Probe("file.directory_noise_burst")
+					for j := 0; j < n; j++ {
+						s.noiseSeq++
+						w.Sim.FSCreateEvent(filepath.Join(w.Dir, fmt.Sprintf("other-%d.tmp", s.noiseSeq)), []byte("x"))
+					}
+				})
+			}
 		}
 	}
 }
@@ -757,7 +777,12 @@ func (s *static) Finish(w *World) {
 			continue
 		}
 		class := "update-never-loaded"
-		if s.watchKilled[p] && s.editsAfterKill[p] > 0 {
+		for _, ws := range w.Sim.WatcherStats() {
+			if ws.Inc == w.Inc && !ws.Dead && ws.Stuck {
+				class = "update-never-loaded/watcher-stuck-on-unread-error"
+			}
+		}
+		if class == "update-never-loaded" && s.watchKilled[p] && s.editsAfterKill[p] > 0 {
 			class = "update-never-loaded/after-watch-lost"
 		}
 		w.Violate("C10", class, "autorefresh: %s was last modified at step %d (t=%.3fs) and the server is idle, but the plugin never read the final content (last read at step %d); watch lost by an earlier rename/unlink style update: %v, updates after that: %d; watchers: %+v",
